@@ -52,6 +52,8 @@ SLOTS = [
     ("rep-mid", "r = { a{1", "} }"),
     ("rep-mid2", "r = { a{1,", "} }"),
     ("rep-close", "r = { a{1,2", " }"),
+    ("block-comment-inner", "/* a", " b */ r = { a }"),  # only nested block comments have structure inside a block comment
+    ("block-comment-inner2", "r = { a /*", "*/ ~ b }"),
     ("rep-u32-last", "r = { a{429496729", "} }"),  # pest: repeat counts are u32 ("number cannot overflow u32")
     ("rep-u32-extra", "r = { a{4294967295", "} }"),
     ("rep-u32-max", "r = { a{,429496729", "} }"),
@@ -288,7 +290,7 @@ SIZE_SPECIALS = {
 def texts_for(prop: str, tier: str, seed: int):
     """[(name, parts)]"""
     out = []
-    W2_QUICK = {"postfix", "infix", "range-op", "kw-pop-tail", "modifier", "rep-open", "string-esc", "peek-lo", "tag-eq", "u-esc-all", "x-esc", "u-esc-open"}
+    W2_QUICK = {"block-comment-inner", "block-comment-inner2", "postfix", "infix", "range-op", "kw-pop-tail", "modifier", "rep-open", "string-esc", "peek-lo", "tag-eq", "u-esc-all", "x-esc", "u-esc-open"}
     for name, pre, suf in SLOTS:
         wmax = 2 if tier == "thorough" or name in W2_QUICK else 1
         for w in range(0, wmax + 1):
